@@ -58,6 +58,14 @@ class AbstractBlock(CborArray):
     crc_value_name = 'crc_value'
     ''' The name of the CRC-value field. '''
 
+    def do_dissect(self, s):
+        # Keep the items as received, the decoded fields are not always
+        # one-to-one with them and check_crc() must cover what was received
+        while isinstance(s, cbor2.CBORTag):
+            s = s.value
+        self._rx_items = list(s) if isinstance(s, list) else None
+        return super().do_dissect(s)
+
     def fill_fields(self):
         ''' Fill all fields so that the block is the full size it needs
         to be for encoding encoding with build().
@@ -76,6 +84,9 @@ class AbstractBlock(CborArray):
         '''
         if self.crc_type_name is None or self.crc_value_name is None:
             return
+
+        # the block is being (re-)finalized, not checked as received
+        self._rx_items = None
 
         crc_type = self.getfieldval(self.crc_type_name)
         if crc_type == 0:
@@ -101,8 +112,12 @@ class AbstractBlock(CborArray):
 
         crc_type = self.getfieldval(self.crc_type_name)
         crc_value = self.fields.get(self.crc_value_name)
+        rx_items = getattr(self, '_rx_items', None)
         if crc_type == 0:
             valid = crc_value is None
+            if valid and rx_items is not None:
+                # no items beyond the defined fields
+                valid = len(self.build()) == len(rx_items)
         else:
             defn = AbstractBlock.CRC_DEFN[crc_type]
             # Encode with a zero-valued CRC field
@@ -112,6 +127,10 @@ class AbstractBlock(CborArray):
             valid = crc_value == defn['encode'](crc_int)
             # Restore old value
             self.fields[self.crc_value_name] = crc_value
+            if valid and rx_items is not None:
+                # the CRC was computed over the re-encoded fields, which
+                # must be exactly what was received
+                valid = cbor2.dumps(self.build()) == cbor2.dumps(rx_items)
 
         return valid
 
